@@ -35,7 +35,8 @@ def gen_single(rng):
     if rng.random() < 0.3: krules.append(["species", "B", "thr_k", rng.choice([">", "<", "="])])
     vevents = [["linear volume", "ge", "kve", rng.choice(["", "A"])]] if rng.random() < 0.3 else []
     # a multiplicative volume event with a volume-proportional propensity blows up in finite time: its propensity reads a species
-    if rng.random() < 0.15: vevents.append(["multiplicative volume", "ge", "kve", "A"])
+    # ... and only in networks without zero-order production (production ~ V and V *= 1.1 at a rate ~ A feed each other: blow-up)
+    if rng.random() < 0.15 and not any(not r["reactants"] for r in rxs): vevents.append(["multiplicative volume", "ge", "kve", "A"])
     devents = [["kde", rng.choice(["", "B"])]] if rng.random() < 0.3 else []
     kevents = [["kke", rng.choice(["", "A"])]] if rng.random() < 0.3 else []
     dt = rng.choice([0.1, 0.25, 0.5]); n = rng.randint(3, 14); t_first = rng.choice([0.0, 0.0, 1.5])
